@@ -403,9 +403,8 @@ type expectation struct {
 	lo, hi   int
 	coll     int // 25-bit index collisions among the candidate addresses (exact regime only)
 	eqDep    bool
-	loExcl   int // lo/hi if chunks touching the window ends exactly were excluded
-	hiExcl   int
-	longLine bool // a line above the scanner limit at or before the last chunk inside
+	excl     [][2]int // lo/hi if chunks touching the window's from / to / both exactly were excluded
+	longLine bool     // a line above the scanner limit at or before the last chunk inside
 }
 
 func unionSets(rec *recording, inside []int) (def, all map[string]struct{}) {
@@ -437,14 +436,22 @@ func unionSets(rec *recording, inside []int) (def, all map[string]struct{}) {
 
 func expect(rec *recording, lines []jline, w window, ic *idxCache) expectation {
 	var ex expectation
-	var strict []int
+	var noFrom, noTo, noBoth []int // membership if equality at from / to / either did not count
 	for k, ln := range lines {
 		if !ln.start.Before(w.from) && !ln.end.After(w.to) {
 			ex.inside = append(ex.inside, k)
-			if ln.start.Equal(w.from) || ln.end.Equal(w.to) {
+			ef, et := ln.start.Equal(w.from), ln.end.Equal(w.to)
+			if ef || et {
 				ex.eqDep = true
-			} else {
-				strict = append(strict, k)
+			}
+			if !ef {
+				noFrom = append(noFrom, k)
+			}
+			if !et {
+				noTo = append(noTo, k)
+			}
+			if !ef && !et {
+				noBoth = append(noBoth, k)
 			}
 		}
 	}
@@ -454,8 +461,10 @@ func expect(rec *recording, lines []jline, w window, ic *idxCache) expectation {
 		ex.coll = ic.collisions(all)
 	}
 	if ex.eqDep {
-		d2, a2 := unionSets(rec, strict)
-		ex.loExcl, ex.hiExcl = len(d2), len(a2)
+		for _, alt := range [][]int{noFrom, noTo, noBoth} {
+			d2, a2 := unionSets(rec, alt)
+			ex.excl = append(ex.excl, [2]int{len(d2), len(a2)})
+		}
 	}
 	if len(ex.inside) > 0 {
 		last := ex.inside[len(ex.inside)-1]
@@ -605,8 +614,17 @@ func checkWindow(res *vlib.Result, id, mode string, rec *recording, journal []by
 		far1 := time.Unix(1<<36, 0)
 		g2, e2, p2 := countJournal(res, sub, 0, far0, far1, "journal:panic:Count", rr)
 		subOK := !p2 && e2 == nil && g2 != nil && within(g2.Sum, ex.lo, ex.hi, ex.coll)
+		eqOnly := false
+		for _, alt := range ex.excl {
+			if within(got.Sum, alt[0], alt[1], ex.coll) {
+				eqOnly = true
+			}
+		}
 		switch {
-		case subOK && ex.eqDep && within(got.Sum, ex.loExcl, ex.hiExcl, ex.coll):
+		case subOK && eqOnly:
+			// the only disagreement is whether a chunk that starts exactly at
+			// `from` / ends exactly at `to` is inside: kept apart, because
+			// "inside" could be read either way
 			sig = "journal:window-boundary-equality"
 		case subOK:
 			sig = "journal:window-membership"
